@@ -359,6 +359,46 @@ def c_distance(irmod, mode, cs, machine_hook=None):
     return M.run('dtw_distance_ndim', [s1, mode.r, s2, mode.c, mode.ndim, st]), M
 
 
+class CCStub:
+    """stand-in for the compiled extension dtw_cc inside the *real* Python front-end (dtw.distance(use_c=True), distance_fast):
+    the keyword arguments the front-end passes are decoded as dtw_cc.pyx does (pyx_settings) and the real C kernel is run on
+    the IRSYM machine.  What stays outside is the Cython layer itself (typed memoryviews, struct packing)."""
+    def __init__(self, irmod):
+        self.irmod = irmod
+        self.calls = []
+
+    def _run(self, s1, s2, ndim, kwargs):
+        from . import irsym
+        self.calls.append(dict(kwargs))
+        M = irsym.Machine(self.irmod)
+        a = M.new_doubles('s1', [x.t if isinstance(x, SReal) else float(x) for x in flat_terms(_rows(s1))])
+        b = M.new_doubles('s2', [x.t if isinstance(x, SReal) else float(x) for x in flat_terms(_rows(s2))])
+        st = irsym.mk_settings(M, **pyx_settings(kwargs))
+        if ndim == 1:
+            return SRealOrNum(M.run('dtw_distance', [a, len(s1), b, len(s2), st]))
+        return SRealOrNum(M.run('dtw_distance_ndim', [a, len(s1), b, len(s2), ndim, st]))
+
+    def distance(self, s1, s2, **kwargs):
+        return self._run(s1, s2, 1, kwargs)
+
+    def distance_ndim(self, s1, s2, **kwargs):
+        return self._run(s1, s2, len(s1[0]), kwargs)
+
+
+def _rows(s):
+    out = []
+    for v in s:
+        try:
+            out.append(list(v))
+        except TypeError:
+            out.append(v)
+    return out
+
+
+def SRealOrNum(v):
+    return SReal(v) if isinstance(v, z3.ExprRef) else v
+
+
 # --------------------------------------------------------------------------------------------------
 # path enumerators returning results in the internal (untransformed) domain
 # --------------------------------------------------------------------------------------------------
